@@ -93,12 +93,12 @@ package mqtt
 //@ requires ref(c.peek) != ref(c.pendingAck) || ref(c.peek) == 0
 //@ ensures[C03,C13] c.Received == old(c.Received) || c.Received == wrap64(old(c.Received) + 1)
 //@ ensures[C03,C13] c.Received == wrap64(old(c.Received) + 1) ==> len(c.peek) == 2 && c.peek[0]*256 + c.peek[1] == 49152 + old(c.Received) % 16384 && old(c.Received) - old(c.Completed) < old(len(c.exactlyOnce.queue))
-//@ ensures[C03] c.Received == wrap64(old(c.Received) + 1) ==> st_has(c.persistence, 49152 + old(c.Received) % 16384) && st_len(c.persistence, 49152 + old(c.Received) % 16384) == 4
+//@ ensures[C01,C03] c.Received == wrap64(old(c.Received) + 1) ==> st_has(c.persistence, 49152 + old(c.Received) % 16384) && st_len(c.persistence, 49152 + old(c.Received) % 16384) == 4
 //@ ensures[C03] c.Received == wrap64(old(c.Received) + 1) ==> st_val(c.persistence, 49152 + old(c.Received) % 16384)[0] == 98 && st_val(c.persistence, 49152 + old(c.Received) % 16384)[1] == 2 && st_val(c.persistence, 49152 + old(c.Received) % 16384)[2] * 256 + st_val(c.persistence, 49152 + old(c.Received) % 16384)[3] == 49152 + old(c.Received) % 16384
-//@ ensures[C03,C13] c.Received == old(c.Received) ==> err != nil && forall(k, st_has(c.persistence, k) == old(st_has(c.persistence, k)) && st_len(c.persistence, k) == old(st_len(c.persistence, k)) && st_val(c.persistence, k) == old(st_val(c.persistence, k)))
+//@ ensures[C01,C03,C13] c.Received == old(c.Received) ==> err != nil && forall(k, st_has(c.persistence, k) == old(st_has(c.persistence, k)) && st_len(c.persistence, k) == old(st_len(c.persistence, k)) && st_val(c.persistence, k) == old(st_val(c.persistence, k)))
 //@ ensures[C03,C13] c.Completed == old(c.Completed) && len(c.exactlyOnce.queue) == old(len(c.exactlyOnce.queue))
 //@ ensures[C03] err == nil ==> c.Received == wrap64(old(c.Received) + 1) && len(c.pendingAck) == 0
-//@ ensures[C03,C07] err != nil && c.Received == wrap64(old(c.Received) + 1) ==> len(c.pendingAck) == 4 && c.pendingAck[0] == 98 && c.pendingAck[1] == 2 && c.pendingAck[2] * 256 + c.pendingAck[3] == 49152 + old(c.Received) % 16384
+//@ ensures[C01,C03,C07] err != nil && c.Received == wrap64(old(c.Received) + 1) ==> len(c.pendingAck) == 4 && c.pendingAck[0] == 98 && c.pendingAck[1] == 2 && c.pendingAck[2] * 256 + c.pendingAck[3] == 49152 + old(c.Received) % 16384
 //@ ensures[C03] err != nil && c.Received == old(c.Received) ==> len(c.pendingAck) == 0 || c.pendingAck == old(c.pendingAck)
 
 // onPUBREL: Delete(marker) first, PUBCOMP only after; also for unknown identifiers.
@@ -135,3 +135,43 @@ package mqtt
 //@ ensures[C13] err != nil ==> c.pendingAck == old(c.pendingAck) && forall(k, 0, len(c.pendingAck), c.pendingAck[k] == old(c.pendingAck[k]))
 //@ ensures[C13] (head/2)%4 == 3 || len(c.peek) < 2 || (len(c.peek) >= 2 && c.peek[0]*256 + c.peek[1] + 2 > len(c.peek)) ==> err != nil && Is(err, errProtoReset)
 //@ ensures[C04,C16] forall(k, st_has(c.persistence, k) == old(st_has(c.persistence, k)))
+
+// unordered transactions: one callback per identifier, under the mutex
+//@ func mqtt.(*unorderedTxs).startTx -> packetID, done, err
+//@ requires txs.perPacketID != nil
+//@ loop 1: invariant forall(k, has(txs.perPacketID, k) == old(has(txs.perPacketID, k)) && at(txs.perPacketID, k) == old(at(txs.perPacketID, k))) && len(txs.perPacketID) == old(len(txs.perPacketID))
+//@ ensures[C11,C17] err != nil ==> err == ErrMax && old(len(txs.perPacketID)) > 511 && packetID == 0 && done == nil
+//@ ensures[C11,C17] err != nil ==> forall(k, has(txs.perPacketID, k) == old(has(txs.perPacketID, k)) && at(txs.perPacketID, k) == old(at(txs.perPacketID, k))) && len(txs.perPacketID) == old(len(txs.perPacketID))
+//@ ensures[C17] err == nil ==> old(len(txs.perPacketID)) <= 511 && packetID != 0 && packetID - packetID % 8192 == ite(topicFilters == nil, 16384, 24576)
+//@ ensures[C11,C17] err == nil ==> !old(has(txs.perPacketID, packetID)) && has(txs.perPacketID, packetID) && len(txs.perPacketID) == old(len(txs.perPacketID)) + 1
+//@ ensures[C11] err == nil ==> at(txs.perPacketID, packetID).done == done && at(txs.perPacketID, packetID).topicFilters == topicFilters && fresh(done) && cap(done) == 1 && len(done) == 0 && !closed(done)
+//@ ensures[C11,C17] err == nil ==> forall(k, k != packetID ==> has(txs.perPacketID, k) == old(has(txs.perPacketID, k)) && at(txs.perPacketID, k) == old(at(txs.perPacketID, k)))
+
+//@ func mqtt.(*unorderedTxs).endTx -> done, topicFilters
+//@ requires txs.perPacketID != nil
+//@ ensures[C11] !has(txs.perPacketID, packetID)
+//@ ensures[C11] old(has(txs.perPacketID, packetID)) ==> done == old(at(txs.perPacketID, packetID)).done && topicFilters == old(at(txs.perPacketID, packetID)).topicFilters
+//@ ensures[C11] !old(has(txs.perPacketID, packetID)) ==> done == nil && topicFilters == nil
+//@ ensures[C11,C17] forall(k, k != packetID ==> has(txs.perPacketID, k) == old(has(txs.perPacketID, k)) && at(txs.perPacketID, k) == old(at(txs.perPacketID, k)))
+//@ ensures[C11,C17] len(txs.perPacketID) == old(len(txs.perPacketID)) - ite(old(has(txs.perPacketID, packetID)), 1, 0)
+
+// SUBACK: validation first, then the slot is released and its own callback answered.
+//@ func mqtt.(*Client).onSUBACK -> err
+//@ requires c.perPacketID != nil
+//@ requires forall(k, has(c.perPacketID, k) && at(c.perPacketID, k).done != nil ==> cap(at(c.perPacketID, k).done) == 1 && len(at(c.perPacketID, k).done) == 0 && !closed(at(c.perPacketID, k).done))
+//@ loop 1: invariant rangeindex >= -1 && 0 <= failN && failN <= rangeindex + 1 && forall(k, 0, rangeindex + 1, returnCodes[k] == 0 || returnCodes[k] == 1 || returnCodes[k] == 2 || returnCodes[k] == 128)
+//@ loop 1: invariant (failN == 0) == forall(k, 0, rangeindex + 1, returnCodes[k] != 128)
+//@ loop 2: invariant rangeindex >= -1 && len(err) <= rangeindex + 1 && len(err) >= 0
+//@ ensures[C11,C13] len(c.peek) < 3 || c.peek[0]*256 + c.peek[1] == 0 || (c.peek[0]*256 + c.peek[1]) - (c.peek[0]*256 + c.peek[1]) % 8192 != 24576 ==> err != nil && forall(k, has(c.perPacketID, k) == old(has(c.perPacketID, k)))
+//@ ensures[C11,C13] forall(j, 0, len(c.peek) - 2, c.peek[2+j] == 0 || c.peek[2+j] == 1 || c.peek[2+j] == 2 || c.peek[2+j] == 128) || (err != nil && forall(k, has(c.perPacketID, k) == old(has(c.perPacketID, k))))
+//@ ensures[C11] forall(k, len(c.peek) >= 2 && k != c.peek[0]*256 + c.peek[1] ==> has(c.perPacketID, k) == old(has(c.perPacketID, k)) && at(c.perPacketID, k) == old(at(c.perPacketID, k)))
+//@ ensures[C11] err == nil ==> !has(c.perPacketID, c.peek[0]*256 + c.peek[1])
+//@ ensures[C11] err == nil && old(has(c.perPacketID, c.peek[0]*256 + c.peek[1])) && old(at(c.perPacketID, c.peek[0]*256 + c.peek[1])).done != nil ==> closed(old(at(c.perPacketID, c.peek[0]*256 + c.peek[1])).done)
+
+//@ func mqtt.(*Client).onUNSUBACK -> err
+//@ requires c.perPacketID != nil
+//@ requires forall(k, has(c.perPacketID, k) && at(c.perPacketID, k).done != nil ==> !closed(at(c.perPacketID, k).done))
+//@ ensures[C11,C13] len(c.peek) != 2 || c.peek[0]*256 + c.peek[1] == 0 || (c.peek[0]*256 + c.peek[1]) - (c.peek[0]*256 + c.peek[1]) % 8192 != 16384 ==> err != nil && forall(k, has(c.perPacketID, k) == old(has(c.perPacketID, k)))
+//@ ensures[C11] forall(k, len(c.peek) >= 2 && k != c.peek[0]*256 + c.peek[1] ==> has(c.perPacketID, k) == old(has(c.perPacketID, k)) && at(c.perPacketID, k) == old(at(c.perPacketID, k)))
+//@ ensures[C11] err == nil ==> !has(c.perPacketID, c.peek[0]*256 + c.peek[1])
+//@ ensures[C11] err == nil && old(has(c.perPacketID, c.peek[0]*256 + c.peek[1])) && old(at(c.perPacketID, c.peek[0]*256 + c.peek[1])).done != nil ==> closed(old(at(c.perPacketID, c.peek[0]*256 + c.peek[1])).done)
